@@ -1,8 +1,6 @@
-import json
 from mindsdb_sql.parser.ast.base import ASTNode
-from mindsdb_sql.parser.utils import indent
+from mindsdb_sql.parser.utils import indent, kw_parameters_to_string
 from mindsdb_sql.parser.ast.select import Identifier
-from mindsdb_sql.parser.ast.select.operation import Object
 
 
 class CreatePredictorBase(ASTNode):
@@ -97,21 +95,7 @@ class CreatePredictorBase(ASTNode):
         horizon_str = f'HORIZON {self.horizon} ' if self.horizon is not None else ''
         using_str = ''
         if self.using:
-            using_ar = []
-            for key, value in self.using.items():
-                if isinstance(value, Object):
-                    args = [
-                        f'{k}={json.dumps(v)}'
-                        for k, v in value.params.items()
-                    ]
-                    args_str = ', '.join(args)
-                    value = f'{value.type}({args_str})'
-                else:
-                    value = json.dumps(value)
-
-                using_ar.append(f'{Identifier(key).to_string()}={value}')
-
-            using_str = f'USING ' + ', '.join(using_ar)
+            using_str = 'USING ' + kw_parameters_to_string(self.using)
 
         query_str = ''
         if self.query_str is not None:
